@@ -232,7 +232,9 @@ class ReadSetReader:
         variants = dict()
         skip = set()
         for read in group:
-            if read.is_reverse != primary.is_reverse:
+            # The orientation requirement is meant for supplementary alignments; the two
+            # mates of a paired-end read regularly have opposite orientations
+            if read.is_supplementary and read.is_reverse != primary.is_reverse:
                 continue
             if primary.distance(read) > distance_threshold:
                 continue
